@@ -187,6 +187,17 @@ class Lin:
         u = _uncast(v)
         if u.is_inst and u.op in ("phi", "select"):
             ops = u.ops[1:] if u.op == "select" else [o for o in u.ops if o is not u]
+            if u.op == "phi" and getattr(self, "at", None) is not None:
+                # drop incoming values that arrive over an edge whose condition contradicts what is known at the sink
+                # (the size was enlarged under 'extra != NULL', the copy happens under 'extra != NULL')
+                keep = []
+                for val, pred in zip(u.ops, u.x["inc"]):
+                    if val is u:
+                        continue
+                    if not self._edge_contradicts(pred, u.bb):
+                        keep.append(val)
+                if keep:
+                    ops = keep
             forms = [self.lower(o) for o in ops]
             for cand in forms:
                 if all(self.nonneg(self.add(o, cand, -1)) for o in forms):
@@ -198,6 +209,33 @@ class Lin:
                 if st is not None:
                     return self.lower(st.ops[0])
         return self.form(v)
+
+    def _edge_contradicts(self, pred, succ):
+        """the edge pred -> succ is only taken under a condition whose opposite holds at self.at"""
+        def same_cond(c1, c2):
+            if not (c1.is_inst and c2.is_inst and c1.op == "icmp" and c2.op == "icmp" and c1.pred == c2.pred):
+                return False
+            for a, b in zip(c1.ops, c2.ops):
+                a, b = _uncast(a), _uncast(b)
+                if a is b:
+                    continue
+                if a.is_const and b.is_const and ((a.is_null and b.is_null) or (a.is_int and b.is_int and a.uval == b.uval)):
+                    continue
+                return False
+            return True
+        here = list(self.f.guards_at(self.at))
+        there = list(self.f.guards_at(pred))
+        t = pred.term
+        if t.op == "br" and len(t.x["succ"]) == 2 and t.x["succ"][0] is not t.x["succ"][1]:
+            if t.x["succ"][0] is succ:
+                there.append((t.ops[0], True, t))
+            elif t.x["succ"][1] is succ:
+                there.append((t.ops[0], False, t))
+        for (c1, o1, _b1) in there:
+            for (c2, o2, _b2) in here:
+                if o1 in (True, False) and o2 in (True, False) and o1 != o2 and same_cond(c1, c2):
+                    return True
+        return False
 
     def nonneg(self, a):
         return a is not None and all(c >= 0 for c in a.values())
